@@ -218,14 +218,17 @@ func resultVal(sig *types.Signature, rets []*Val) *Val {
 func (e *Engine) callFunc(st *State, instr ssa.Instruction, fn *ssa.Function, args, bind []*Val, call *ssa.CallCommon, k func(st *State, res *Val)) {
 	name := fn.String()
 	e.callSiteReqs(st, instr, fn, args)
-	if c := e.contractFor(fn); c != nil && !c.Inline {
-		e.callContract(st, instr, fn, c, args, k)
-		return
-	}
+	// a higher-order schema (BatchWork, RunJobWorker ...) describes the call
+	// for its callers; a contract on such a function is for the proof of its
+	// own body (C33) and is not what callers see
 	if h, ok := externs[name]; ok {
 		if h(e, st, instr, fn, args, k) {
 			return
 		}
+	}
+	if c := e.contractFor(fn); c != nil && !c.Inline {
+		e.callContract(st, instr, fn, c, args, k)
+		return
 	}
 	if isErrCtor(name) {
 		k(st, e.errCtor(st, fn, args, instr))
